@@ -34,6 +34,7 @@ type lockStep struct {
 	WritableIs  []string          `json:"writableIs"`
 	ReadonlyIs  []string          `json:"readonlyIs"`
 	ServerAfter map[string]string `json:"serverAfter"`
+	Page        int               `json:"page"` // locks per page of the server's list / verify answers (0: all)
 }
 
 const zeroSha = "0000000000000000000000000000000000000000"
@@ -146,6 +147,9 @@ func replayLocking(c *core.Ctx, lfsBin string, b *behaviour, idx int) (*core.Vio
 		return m
 	}
 	var cmds []string
+	if len(b.steps) > 0 {
+		srv.PageSize = b.steps[0].num("page")
+	}
 	for i, raw := range b.steps {
 		var s lockStep
 		bb, _ := json.Marshal(raw)
@@ -291,6 +295,11 @@ func init() {
 		gcfg := writeCfgVariant(c, cfg, "Locking_gen.cfg", map[string]string{"Emit = FALSE": "Emit = TRUE"})
 		r := c.TLC(core.TLCOpts{Module: "Locking", Cfg: gcfg, Workers: 6, Timeout: 30 * time.Minute})
 		c.MustPass(r, "Locking/"+cfg)
+		if rm := c.TLC(core.TLCOpts{Module: "Locking", Cfg: "Locking_clearperpage.cfg", Workers: 4, Timeout: 10 * time.Minute}); rm.Violated == "" {
+			c.Infra("non-vacuity: the variant that clears the cache for every page of the verify answer violates nothing")
+		} else {
+			c.Set("spec_mutant_violates", rm.Violated)
+		}
 		c.Set("states", r.Distinct)
 		c.Set("transitions", r.Generated)
 		actionsSeen = map[string]int{}
@@ -303,11 +312,11 @@ func init() {
 		c.Set("traces_validated_against_impl", len(bs))
 		c.Set("evaluations", len(bs))
 		c.Set("distinct_nontrivial", len(bs))
-		c.Set("rule", "behaviours = per-edge output of spec/Locking.tla: sequences of <= MaxOps commands of two users over two lockable paths (lock, unlock by path / by id with and without --force, locks --verify, hook run, edit, final commit+push with lock verification); sampled round-robin over classes (sequence of action kinds with flags and verdicts)")
+		c.Set("rule", "behaviours = per-edge output of spec/Locking.tla: sequences of <= MaxOps commands of two users over two lockable paths against a server that pages lock lists by {0 (never), 1} (lock, unlock by path / by id with and without --force, locks --verify, hook run, edit, final commit+push with lock verification); sampled round-robin over classes (sequence of action kinds with flags and verdicts)")
 		for i := 0; i < len(bs); i += len(bs)/4 + 1 {
 			c.Sample(json.RawMessage(bs[i].raw))
 		}
-		c.Assume("the lock server derives ownership from the Basic-auth user of each clone's lfs.url; server faults (403/404/5xx, pagination), lfs.setlockablereadonly=false and locksverify unset/false are not yet in the model; at most one push per behaviour")
+		c.Assume("the lock server derives ownership from the Basic-auth user of each clone's lfs.url; the server pages its lock lists by 1 or not at all, fixed per behaviour; server faults (403/404/5xx), lfs.setlockablereadonly=false and locksverify unset/false are not yet in the model; at most one push per behaviour")
 	}
 }
 
@@ -328,6 +337,7 @@ func sampleLockBehaviours(c *core.Ctx, file string, budget int) ([]*behaviour, i
 			actionsSeen[s.str("a")]++
 			k = append(k, fmt.Sprintf("%s/%v/%v/%v/%s", s.str("a"), s["ok"], s["force"], s["byid"], s.str("u")))
 		}
+		k = append(k, fmt.Sprintf("page=%d", st[0].num("page")))
 		b := &behaviour{steps: st, raw: raw, class: strings.Join(k, ";"), hash: fnvStr(string(raw), c.Seed)}
 		l := append(byClass[b.class], b)
 		if len(l) > 4 {
